@@ -1,6 +1,60 @@
-//! Harness programs.
+//! Harness programs and program-account types for the C09 nests.
 use star_frame::prelude::*;
 
-#[derive(StarFrameProgram)]
+/// The crate's declared program and the EXECUTING program of every case (`Option` placeholder,
+/// `Seeded` derivations). Default `[u8; 8]` account discriminants.
+#[derive(StarFrameProgram, Debug)]
 #[program(instruction_set = (), id = "HxAcc11111111111111111111111111111111111111", no_entrypoint)]
 pub struct HxProgram;
+
+/// A second program with 2-byte (`u16`) account discriminants.
+#[derive(StarFrameProgram, Debug)]
+#[program(instruction_set = (), id = Pubkey::new_from_array([0x52; 32]), account_discriminant = u16, no_entrypoint, no_setup, skip_idl)]
+pub struct P2;
+
+#[zero_copy(pod)]
+#[derive(Default, Debug, Eq, PartialEq, ProgramAccount)]
+#[program_account(program = HxProgram, discriminant = [0xC1, 2, 3, 4, 5, 6, 7, 8], skip_idl)]
+pub struct Zc8 {
+    pub a: u8,
+    pub b: u8,
+}
+
+#[derive(BorshSerialize, BorshDeserialize, Default, Debug, Clone, PartialEq, Eq, ProgramAccount)]
+#[program_account(program = HxProgram, discriminant = [0xF1, 2, 3, 4, 5, 6, 7, 8], skip_idl)]
+pub struct Fix8 {
+    pub a: u16,
+    pub b: u8,
+}
+
+#[zero_copy(pod)]
+#[derive(Default, Debug, Eq, PartialEq, ProgramAccount)]
+#[program_account(program = P2, discriminant = 0x02C2u16, skip_idl)]
+pub struct Zc2 {
+    pub a: u8,
+    pub b: u8,
+}
+
+#[derive(BorshSerialize, BorshDeserialize, Default, Debug, Clone, PartialEq, Eq, ProgramAccount)]
+#[program_account(program = P2, discriminant = 0x02F2u16, skip_idl)]
+pub struct Fix2 {
+    pub a: u16,
+    pub b: u8,
+}
+
+#[derive(Debug, GetSeeds, Clone)]
+#[get_seeds(seed_const = b"HXSEED")]
+pub struct HxSeeds {
+    pub n: u8,
+}
+
+/// (declaring program id, discriminant bytes, body length) of an account type, as WRITTEN above.
+pub fn type_info(name: &str) -> ([u8; 32], Vec<u8>, usize) {
+    match name {
+        "zc8" => (HxProgram::ID.to_bytes(), vec![0xC1, 2, 3, 4, 5, 6, 7, 8], 2),
+        "fix8" => (HxProgram::ID.to_bytes(), vec![0xF1, 2, 3, 4, 5, 6, 7, 8], 3),
+        "zc2" => ([0x52; 32], vec![0xC2, 0x02], 2),
+        "fix2" => ([0x52; 32], vec![0xF2, 0x02], 3),
+        o => panic!("unknown account type {o}"),
+    }
+}
